@@ -147,14 +147,18 @@ def install(ctx):
     monitor.wrap(ctx, be, "matrix_binary_t_test", mk_prim(True), mon_name="post:matrix_binary_t_test")
 
 
-def _build_pair(case, ratesB, start, end):
+def _build_pair(case, ratesB, start, end, factors=(1.0, 1.0)):
     foreA, cat, reg, w = gridcases.build(case, name="A")
     foreB = gridcases.fixtures.gridded_forecast(numpy.array(ratesB, dtype=float), reg, foreA.magnitudes, name="B")
-    for f in (foreA, foreB):
+    for f, fac in zip((foreA, foreB), factors):
         f.start_time, f.end_time = start, end
+        if fac != 1.0:
+            # a forecast that was re-scaled earlier (scale() / scale_to_test_date()): it carries data = _data * factor
+            f._data = f._data / fac
+            f.scale(fac)
     days = (end - start).days
-    foreA._verif_ref = (numpy.array(case["rates"], dtype=float), days)
-    foreB._verif_ref = (numpy.array(ratesB, dtype=float), days)
+    foreA._verif_ref = (numpy.array(foreA.data, dtype=float), days)
+    foreB._verif_ref = (numpy.array(foreB.data, dtype=float), days)
     order = case.get("event_order")
     ec, em = numpy.asarray(case["ev_cell"], dtype=int), numpy.asarray(case["ev_mag"], dtype=int)
     if order is not None:
@@ -163,28 +167,30 @@ def _build_pair(case, ratesB, start, end):
     return foreA, foreB, cat, w
 
 
-def ex_pair(ctx, case, ratesB, alpha=0.05, scale=False, days=365):
+def ex_pair(ctx, case, ratesB, alpha=0.05, scale=False, days=365, factors=(1.0, 1.0)):
     import csep.core.poisson_evaluations as pe
     import csep.core.binomial_evaluations as be
     start = datetime.datetime(2010, 1, 1, tzinfo=UTC)
     end = start + datetime.timedelta(days=days)
-    rc = {"exec": "pair", "args": {"case": case, "ratesB": ratesB, "alpha": alpha, "scale": scale, "days": days}}
-    A = numpy.array(case["rates"], dtype=float)
-    B = numpy.array(ratesB, dtype=float)
+    rc = {"exec": "pair", "args": {"case": case, "ratesB": ratesB, "alpha": alpha, "scale": scale, "days": days, "factors": list(factors)}}
+    factors = tuple(factors)
+    _fa, _fb, _c, _w = _build_pair(case, ratesB, start, end, factors)
+    A = numpy.array(_fa.data, dtype=float)          # the rates the forecasts actually carry
+    B = numpy.array(_fb.data, dtype=float)
     ec, em = numpy.asarray(case["ev_cell"], dtype=int), numpy.asarray(case["ev_mag"], dtype=int)
     n = ec.size
     div = float(days) if scale else 1.0
     x = (numpy.log(A[ec, em] / div) - numpy.log(B[ec, em] / div)).tolist()
     na, nb = float(A.sum()) / div, float(B.sum()) / div
     ties = len(set(x)) < len(x)
-    tags = {"alpha": alpha, "scale": scale, "ties": ties, "identical": bool(numpy.array_equal(A, B))}
+    tags = {"alpha": alpha, "scale": scale, "ties": ties, "identical": bool(numpy.array_equal(A, B)), "rescaled_forecasts": factors != (1.0, 1.0)}
     ctx.count(3)
 
     def run(fn, fa, fb, cat, **kw):
         return ctx.call(fn, fa, fb, cat, **kw)
 
     # ---------------- T test
-    foreA, foreB, cat, w = _build_pair(case, ratesB, start, end)
+    foreA, foreB, cat, w = _build_pair(case, ratesB, start, end, factors)
     ok, res, tb = run(pe.paired_t_test, foreA, foreB, cat, alpha=alpha, scale=scale)
     ctx.mon("e2e:paired_t_test", 1)
     ref = t_ref(x, n, na, nb, alpha)
@@ -193,7 +199,7 @@ def ex_pair(ctx, case, ratesB, alpha=0.05, scale=False, days=365):
                     tags=dict(tags, test="T", clause="raised", exc=type(res).__name__))
     else:
         check_t(ctx, rc, dict(tags, test="T"), res, ref)
-        fa2, fb2, cat2, _ = _build_pair(case, ratesB, start, end)
+        fa2, fb2, cat2, _ = _build_pair(case, ratesB, start, end, factors)
         ok2, res2, tb2 = run(pe.paired_t_test, fb2, fa2, cat2, alpha=alpha, scale=scale)
         ctx.mon("metamorphic:swap", 1)
         if ok2 and "t" in ref:
@@ -203,14 +209,14 @@ def ex_pair(ctx, case, ratesB, alpha=0.05, scale=False, days=365):
             if not all(close(float(a), float(b), rel=1e-9, abs_=1e-12) for a, b in pairs):
                 ctx.violate("swapping the forecasts does not negate gain/statistic and mirror the interval", rc,
                             observed=[float(a) for a, b in pairs], expected=[float(b) for a, b in pairs], tags=dict(tags, test="T", clause="swap"))
-        fa3, _, cat3, _ = _build_pair(case, case["rates"], start, end)
-        fb3 = _build_pair(case, case["rates"], start, end)[0]
+        fa3, _, cat3, _ = _build_pair(case, case["rates"], start, end, (factors[0], factors[0]))
+        fb3 = _build_pair(case, case["rates"], start, end, (factors[0], factors[0]))[0]
         ok3, res3, tb3 = run(pe.paired_t_test, fa3, fb3, cat3, alpha=alpha, scale=scale)
         if ok3 and abs(float(res3.observed_statistic)) > 1e-12:
             ctx.violate("a forecast compared with itself has non-zero information gain", rc, observed=float(res3.observed_statistic), expected=0.0,
                         tags=dict(tags, test="T", clause="self"))
     # ---------------- W test
-    foreA, foreB, cat, w = _build_pair(case, ratesB, start, end)
+    foreA, foreB, cat, w = _build_pair(case, ratesB, start, end, factors)
     m = (na - nb) / n       # the library uses the unscaled totals; identical ratio when both are scaled
     m_lib = (float(A.sum()) - float(B.sum())) / n
     wref = w_ref(x, m_lib)
@@ -226,7 +232,7 @@ def ex_pair(ctx, case, ratesB, alpha=0.05, scale=False, days=365):
         if not (close(z, wref["z"], rel=1e-9, abs_=1e-12) and close(p, wref["p"], rel=1e-9, abs_=1e-12) and 0.0 <= p <= 1.0):
             ctx.violate("W-test z / p are not the tie-corrected signed-rank values about (N_A-N_B)/N", rc, observed={"z": z, "p": p}, expected=wref,
                         tags=dict(tags, test="W", clause="value"))
-        fa2, fb2, cat2, _ = _build_pair(case, ratesB, start, end)
+        fa2, fb2, cat2, _ = _build_pair(case, ratesB, start, end, factors)
         ok2, res2, tb2 = run(pe.w_test, fb2, fa2, cat2, scale=scale)
         ctx.mon("metamorphic:swap", 1)
         if ok2 and not (close(float(res2.observed_statistic), z, rel=1e-9, abs_=1e-12) and close(float(res2.quantile), p, rel=1e-9, abs_=1e-12)):
@@ -241,7 +247,7 @@ def ex_pair(ctx, case, ratesB, alpha=0.05, scale=False, days=365):
             except Exception:  # noqa
                 pass
     # ---------------- binary T test
-    foreA, foreB, cat, w = _build_pair(case, ratesB, start, end)
+    foreA, foreB, cat, w = _build_pair(case, ratesB, start, end, factors)
     act = numpy.nonzero(w.ravel())[0]
     xb = (numpy.log(A.ravel()[act]) - numpy.log(B.ravel()[act])).tolist()
     refb = t_ref(xb, len(act), na, nb, alpha)
@@ -314,8 +320,14 @@ def run(ctx):
             case["ev_cell"] = [case["ev_cell"][0]] * len(case["ev_cell"])
             case["ev_mag"] = [case["ev_mag"][0]] * len(case["ev_mag"])
         A = numpy.array(case["rates"])
-        kind = j % 4
-        if kind == 0:
+        kind = j % 5
+        if kind == 4:
+            # same rates in the bins that hold events, different elsewhere: zero log-rate differences but N_A != N_B
+            B = A * 10 ** r.normal(0, 0.5, A.shape)
+            ec_, em_ = numpy.asarray(case["ev_cell"]), numpy.asarray(case["ev_mag"])
+            half = r.uniform(size=ec_.size) < 0.6
+            B[ec_[half], em_[half]] = A[ec_[half], em_[half]]
+        elif kind == 0:
             B = 10 ** r.uniform(-8, 1, A.shape)
         elif kind == 1:
             B = A * float(r.uniform(0.2, 5))          # proportional
@@ -323,9 +335,10 @@ def run(ctx):
             B = A.copy()                              # identical
         else:
             B = A * 10 ** r.normal(0, 0.3, A.shape)
-        ex_pair(ctx, case, B.tolist(), alpha=float(r.choice([0.01, 0.05, 0.3])), scale=bool(j % 3 == 0), days=int(r.choice([1, 30, 365, 1826])))
+        factors = (1.0, 1.0) if j % 4 else (float(r.choice([0.5, 2.0, 0.25])), float(r.choice([0.5, 3.0, 1.0])))
+        ex_pair(ctx, case, B.tolist(), alpha=float(r.choice([0.01, 0.05, 0.3])), scale=bool(j % 3 == 0), days=int(r.choice([1, 30, 365, 1826])), factors=factors)
         if j % 100 == 0:
-            ctx.sample({"cells": len(case["rates"]), "mags": case["nmag"], "n_events": len(case["ev_cell"]), "pair_kind": ["independent", "proportional", "identical", "perturbed"][kind]})
+            ctx.sample({"cells": len(case["rates"]), "mags": case["nmag"], "n_events": len(case["ev_cell"]), "pair_kind": ["independent", "proportional", "identical", "perturbed", "equal-in-event-bins"][kind]})
     for j in range((20000 if thorough else 400) // ctx.nshards):
         r = ctx.rng("c08w", j)
         k = int(r.integers(2, 60))
